@@ -4,5 +4,5 @@ set -e
 cd "$(dirname "$0")"
 coqc -R ../coq/theories SQ Extract.v >/dev/null
 mkdir -p ../build
-ocamlfind ocamlopt -O3 -w -a -package str model.mli model.ml driver_base.ml c11.ml roots.ml hist.ml print.ml main.ml -o ../build/sqmodel 2>&1 || \
-ocamlfind ocamlopt -w -a model.mli model.ml driver_base.ml c11.ml roots.ml hist.ml print.ml main.ml -o ../build/sqmodel
+ocamlfind ocamlopt -O3 -w -a -package str model.mli model.ml driver_base.ml c11.ml roots.ml hist.ml print.ml fault.ml main.ml -o ../build/sqmodel 2>&1 || \
+ocamlfind ocamlopt -w -a model.mli model.ml driver_base.ml c11.ml roots.ml hist.ml print.ml fault.ml main.ml -o ../build/sqmodel
